@@ -214,6 +214,76 @@ def r02_5(ctx, layers):
     ctx.run_rule("R02.5", "count is never decremented unless a route was removed", body, floor=7)
 
 
+def r02_9(ctx, layers, rid="R02.9"):
+    """`count` drives is_empty(), which parents use to prune buckets: it may only move by one per inserted /
+    removed route.  Every statement that writes a layer's count is one of the two recognised updates."""
+    F = ctx.facts
+    from riolib.effects import place_field_chain
+
+    def body(r):
+        n = 0
+        for L in layers:
+            for f in F.fn_list:
+                if f.derived:
+                    continue
+                pv = None
+                for bi, si, st in f.assigns():
+                    if (L.adt, "count") not in place_field_chain(st["p"]):
+                        continue
+                    pv = pv or Prov(f, copies=True)
+                    n += 1
+                    v = pv.rvalue(st["r"])
+                    cnt = lambda x: x[0] == "field" and x[2] == "count" and x[3] == L.adt
+                    step = [x for x in walk(v) if x[0] == "bin" and (x[1].startswith("Add") or x[1].startswith("Sub")) and cnt(x[2]) and x[3] == ("const", 1)]
+                    ok = bool(step) and f.adt == L.adt and ((step[0][1].startswith("Add") and f.name == "insert") or (step[0][1].startswith("Sub") and f.name == "remove"))
+                    key = "count-write:%s:%s" % (L.short, f.key.rsplit("::", 1)[1])
+                    r.ob(key, ok, f.loc(span_line(st["s"])),
+                         "count %s 1 in %s" % ("+=" if step and step[0][1].startswith("Add") else "-=", f.name) if ok else
+                         "%s.count := %s in %s: count must stay the number of live routes of the layer (it decides is_empty() and the pruning of buckets); only `+= 1` per insert and `-= 1` per removed route are recognised" % (L.short, show(v, f)[:80], f.key))
+        r.ob("count-write:sites", n >= 14, "", "%d statements write a layer count" % n)
+    ctx.run_rule(rid, "count moves by one per inserted / removed route", body, floor=14)
+
+
+def r02_10(ctx, layers):
+    """The boolean a layer's batch_remove returns means "nothing is left here": it is true only when every
+    bucket was found empty (or it is the count-based is_empty())."""
+    F = ctx.facts
+
+    def body(r):
+        for L in layers:
+            f = L.methods["batch_remove"]
+            if f is None:
+                continue
+            r.analysed(f)
+            bad = set()
+            n = 0
+            for p in Sym(f, copies=True, max_paths=50000).paths():
+                if p.end[0] != "ret":
+                    continue
+                ret = p.end[1]
+                if ret == ("const", False):
+                    continue
+                n += 1
+                emptied = set()
+                via_count = False
+                terms = [(a, v) for a, v in p.conds] + [(ret, 1)]
+                for a, v in terms:
+                    if a[0] == "call" and a[1].rsplit("::", 1)[1] == "is_empty" and v == 1:
+                        for b in L.buckets:
+                            if mentions_field(a[2][0], b, L.adt):
+                                emptied.add(b)
+                        if a[1] == L.adt + "::is_empty" and a[2][0] == ("param", 1):
+                            via_count = True
+                    if a[0] == "bin" and a[1] == "Eq" and v == 1 and mentions_field(a[2], "count", L.adt) and a[3] == ("const", 0):
+                        via_count = True
+                missing = [b for b in L.buckets if b not in emptied]
+                if missing and not via_count:
+                    bad.add("reports `empty` without having found %s empty" % ", ".join(missing))
+            r.ob("emptiness:%s::batch_remove" % L.short, not bad and n > 0, f.site,
+                 "returns true only when every bucket (%s) is empty" % ", ".join(L.buckets) if not bad else "; ".join(sorted(bad)) + ": a caller that prunes on this answer drops live routes")
+    ctx.run_rule("R02.10", "a layer reports itself empty only when every bucket is", body, floor=7)
+
+
 ALLOWED_INTERIOR = {("marker::MarkerString", "regex_capture")}
 NO_UNSAFE_MODULES = ("src/router/", "src/regex_radix_tree/", "src/marker/", "src/regex.rs", "src/api/rules_message.rs", "src/api/rule.rs")
 
@@ -395,3 +465,5 @@ def run(ctx):
     from .c08 import r08_2
     r08_2(ctx, rid="R02.7")
     r02_8(ctx, layers)
+    r02_9(ctx, layers)
+    r02_10(ctx, layers)
